@@ -125,6 +125,7 @@ contract(
     raises={"FileNotFoundError": (None, _rm_exc), "KeyError": (None, _rm_post)},
     invariants={0: _inv_rm, 1: lambda c: removed(c.h, c.fs) == removed(c.h0, c.fs).union(JS(c.h0.get("State.root_dir", c.self), c.unused, c.unused.length()))},
     entry_assume=js_monotone,
+    assumes=['lemma over the recursive spec set joined_upto (induction, not proved here): the set of joined paths only grows with the prefix length'],
     locals=dict(ref=State.fields["links"]),
     modifies=lambda c: [("FileSystem.files", c.fs), ("FileSystem.removed", c.fs), ("G.lfiles",), ("G.l444",)],
     ensures=_rm_post,
